@@ -21,9 +21,9 @@ for f in sorted(glob.glob('/verif/seeded/C*/meta.json')):
 txt = """
 ### 12.6 Seeded changes and which check catches them
 
-Eight rounds of fresh sub-agents: m1/m2 against the tree with only the hooks; then, against the tree with the repairs
+Nine rounds of fresh sub-agents: m1/m2 against the tree with only the hooks; then, against the tree with the repairs
 made so far, m3/m4 (20 properties), two more for 14 properties, three times two more for all 20, three more
-for all 20 and finally two more for all 20 (15 or 17 changes per property, 328 in all). From the second round on the agents were told one-line summaries
+for all 20 and twice two more for all 20 (17 or 19 changes per property, 368 in all). From the second round on the agents were told one-line summaries
 of the changes already known for the property and asked for other sites, mechanisms and clauses (in the last rounds also:
 other entry points, fast paths, rarely used options, boundary sizes, error paths, state kept between calls, caches,
 Python / CLI layers, the last element of structures). Each agent saw only the property text and its own scratch worktree,
@@ -35,7 +35,8 @@ Rust tests were run by hand). Seven m1/m2 patches had to be re-applied by hand a
 **What these rounds say about reach.** The share of new changes that the checks missed at the first attempt did not go
 down as the monitors grew: 18 of 40 (round four), 11 of 40 (round five), about 17 of 40 (round six: 3 missed, 14 gaps
 closed after reading the descriptions but before the first run), 24 of 60 (round seven, first run made before any
-extension), about 19 of 40 (round eight: 8 missed, 11 gaps closed after reading the descriptions but before the first run). Each miss had the same cause: the workload did not drive the code concerned - another entry point (command
+extension), about 19 of 40 (round eight: 8 missed, 11 gaps closed after reading the descriptions but before the first run), 15 of 40 (round nine,
+first run made before any extension). Each miss had the same cause: the workload did not drive the code concerned - another entry point (command
 line, Python binding, `ConfigBuilder`, file-based loading, the stateless tokenizer, the older split API, a named pipe),
 a rarely used option (debug mode, `enableNormalize: false`, reversed plugin order, no fallback provider, projections with
 a handler), a size nobody generated (exactly 65,535 characters, 15 user dictionaries, 256 homographs, 2^20 trie units,
@@ -48,6 +49,8 @@ is a detection rate of roughly 60 %%, not 98 %%. One miss of round six was a def
 only its first 40 violation records and records labelled as known finding D1 filled that list (labelled and unlabelled
 records now have separate quotas). Side remarks of the agents about the unchanged tree led to defects D25 - D30 of 12.3; the workload written for C10-m16
 (round eight) found D32 on the unchanged tree at its first run.
+One change of round nine (C18-m18) makes threads block each other for good; a check that only had a watchdog would have
+ended "inconclusive", so C18 got a progress monitor with a control thread (12.4, bounded progress).
 
 Result of the sweeps (`lib/sweep_seeded.sh` applies to /repo and reverts; `lib/sweep_alt.sh` uses a scratch worktree
 through `VERIF_REPO`, so that long runs against /repo are not disturbed): **%d of %d are detected by the quick check of
@@ -73,7 +76,11 @@ reference; contended first use; many distinct expanding characters + ASan stage;
 another length; panics that occur only with the plugins), C10 (split list attached to a stale narrow-request list),
 C13 (exact-length long regex matches; a class table of the provider's own), C02 (OOV nodes against the providers asked
 directly), C14 (value of a lone rewritten numeral), C12 (version-1 user dictionaries), C10 (failures after the path was
-found), C18 (hundreds of compounds first split under contention), C01 (single-unit compounds through the older split API). Monitors extended after *reading* a change description but before running it:
+found), C18 (hundreds of compounds first split under contention), C01 (single-unit compounds through the older split API); after round nine: C04 (exactly 127 homographs, version-1
+stacks), C05 (output path that already holds a file), C06 (references beyond 2^28, inline references in one column only),
+C07 (KANJI of other byte widths), C10 (provider errors and failing input-text plugins), C11 (lookup into a used list),
+C12 (missing listed file, relative names), C13 (stacks without the simple provider), C14 (unreadable numerals), C15
+(numeral entries with units), C16 (marks that are no brackets), C18 (debug tokenizers in threads). Monitors extended after *reading* a change description but before running it:
 C02 (OOV parameters vs definitions, empty input), C04/C05 (keys starting with `#`, other negative left ids), C06 (call
 sequences, user dictionaries, must-accept ids, 127/128/129-unit strings), C08 (rejected edit batches), C09 (modes
 reached through set_subset + set_mode), C11 (long strings), C14 (comparison with the mode-C analysis, degenerate merges),
